@@ -6,7 +6,7 @@ import time
 
 from .substrate import VERIF, EXIT_OK, EXIT_VIOLATION, EXIT_BROKEN, AnalysisBroken, log
 
-EVIDENCE = os.path.join(VERIF, "evidence")
+EVIDENCE = os.environ.get("VERIF_EVIDENCE_DIR") or os.path.join(VERIF, "evidence")
 KNOWN = os.path.join(VERIF, "known_findings.json")
 RULES = os.path.join(VERIF, "rules")
 
